@@ -230,16 +230,21 @@ Section Commit.
      exists b, n = File b /\ a' = set_cs a (H b) /\
        ((a_skip a = true /\ n' = n /\ c' = c) \/
         (a_skip a = false /\ c' = cput c (H b) b /\
-         n' = match st with Link => LinkC (H b) | Copy => File b end))).
+         n' = match st with Link => LinkC (H b) | Copy => File b end))) \/
+    (* a link to an existing object is adopted *)
+    (exists d o, n = LinkC d /\ cget c d = Some o /\ n' = n /\ c' = c /\ a' = set_cs a d).
   Proof.
     unfold commit_file. destruct (qmatch c (a_cs a) (Some n)) eqn:Eq.
     - intros Hok. injection Hok as <- <- <-. left. repeat split; reflexivity.
-    - destruct n as [b| | | |]; try discriminate.
-      intros Hok. right. split; [reflexivity|]. exists b. split; [reflexivity|].
-      destruct (a_skip a) eqn:Es.
-      + injection Hok as <- <- <-. split; [reflexivity|]. left. repeat split; reflexivity.
-      + destruct st; injection Hok as <- <- <-; (split; [reflexivity|]); right;
-          repeat split; reflexivity.
+    - destruct n as [b|d| | |]; try discriminate.
+      + intros Hok. right. left. split; [reflexivity|]. exists b. split; [reflexivity|].
+        destruct (a_skip a) eqn:Es.
+        * injection Hok as <- <- <-. split; [reflexivity|]. left. repeat split; reflexivity.
+        * destruct st; injection Hok as <- <- <-; (split; [reflexivity|]); right;
+            repeat split; reflexivity.
+      + unfold in_cache. destruct (cget c d) as [o|] eqn:Eg; [|discriminate].
+        intros Hok. injection Hok as <- <- <-. right. right. exists d, o.
+        repeat split; reflexivity || assumption.
   Qed.
 
   Lemma qmatch_inv c cs n :
@@ -263,8 +268,10 @@ Section Commit.
       apply commit_dir_inv in Hok as (_ & old & es' & c1 & m & _ & _ & _ & _ & ->).
       right. eexists. reflexivity.
     - rewrite (commit_node_leaf _ _ _ _ Ed). destruct (a_isdir a); [discriminate|].
-      intros Hok. apply commit_file_inv in Hok as [(_ & _ & _ & ->)|(_ & b & _ & -> & _)].
+      intros Hok.
+      apply commit_file_inv in Hok as [(_ & _ & _ & ->)|[(_ & b & _ & -> & _)|(d & o & _ & _ & _ & _ & ->)]].
       + left. reflexivity.
+      + right. eexists. reflexivity.
       + right. eexists. reflexivity.
   Qed.
 
@@ -309,10 +316,12 @@ Section Commit.
     cache_ok H c' /\ cache_le c c'.
   Proof.
     intros Hinj Hc Hok.
-    apply commit_file_inv in Hok as [(_ & _ & -> & _)|(_ & b & _ & _ & [(_ & _ & ->)|(_ & -> & _)])].
+    apply commit_file_inv in Hok
+      as [(_ & _ & -> & _)|[(_ & b & _ & _ & [(_ & _ & ->)|(_ & -> & _)])|(d & o & _ & _ & _ & -> & _)]].
     - split; [exact Hc|apply cache_le_refl].
     - split; [exact Hc|apply cache_le_refl].
     - split; [apply cput_ok; exact Hc|apply cput_le; assumption].
+    - split; [exact Hc|apply cache_le_refl].
   Qed.
 
   Theorem commit_cache_ok : stmt_commit_cache_ok H.
@@ -363,10 +372,12 @@ Section Commit.
   Proof.
     unfold stmt_commit_skip. intros a b c st n' c' a' Hd Hs Hok.
     rewrite commit_node_leaf in Hok by reflexivity. rewrite Hd in Hok.
-    apply commit_file_inv in Hok as [(Hq & _)|(_ & b' & Eb & -> & [(_ & -> & ->)|(Hs' & _)])].
+    apply commit_file_inv in Hok
+      as [(Hq & _)|[(_ & b' & Eb & -> & [(_ & -> & ->)|(Hs' & _)])|(d & o & Hn & _)]].
     - apply qmatch_inv in Hq as (_ & Hn & _). discriminate.
     - injection Eb as <-. repeat split; reflexivity.
     - congruence.
+    - discriminate.
   Qed.
 
 End Commit.
@@ -452,7 +463,8 @@ Section Logical.
     1-4: rewrite commit_node_leaf in Hok by reflexivity;
          (destruct (a_isdir a); [discriminate|]);
          apply commit_file_inv in Hok
-           as [(_ & -> & -> & _)|(_ & b' & Eb & _ & [(_ & -> & ->)|(_ & -> & ->)])];
+           as [(_ & -> & -> & _)|[(_ & b' & Eb & _ & [(_ & -> & ->)|(_ & -> & ->)])
+                                 |(d' & o' & Ed & _ & -> & -> & _)]];
          try (split; [reflexivity|exact Hres]); try discriminate.
     - injection Eb as <-. destruct st; cbn [logical].
       + rewrite cget_cput, beqb_refl. cbn [o_data]. split; [reflexivity|].
@@ -736,7 +748,10 @@ Section WellFormed.
 
   Lemma wf_written p m :
     wf_text p -> Forall ent_ok m -> StronglySorted man_key_lt m -> wf_manifest (mkMan p m).
-  Proof. intros Hp He Hs. unfold wf_manifest. cbn [m_path m_contents]. repeat split; assumption. Qed.
+  Proof.
+    intros Hp He Hs. unfold wf_manifest. cbn [m_path m_contents].
+    split; [exact Hp|]. split; [exact Hs|exact He].
+  Qed.
 
   Lemma commit_A n : PA n.
   Proof.
@@ -746,7 +761,8 @@ Section WellFormed.
          assert (Hap : forall a0, a_isdir a0 = false -> forall c0, art_present c0 a0)
            by (intros a0 E0 c0 E1; congruence);
          apply commit_file_inv in Hok
-           as [(Hq & -> & -> & ->)|(_ & b' & Eb & -> & [(_ & -> & ->)|(_ & -> & ->)])];
+           as [(Hq & -> & -> & ->)|[(_ & b' & Eb & -> & [(_ & -> & ->)|(_ & -> & ->)])
+                                   |(d' & o' & Ed & Hg' & -> & -> & ->)]];
          try discriminate; try (inversion Ht; fail).
     - (* File, qmatch: impossible *) apply qmatch_inv in Hq as (_ & Hn & _). discriminate.
     - (* File, skip *)
@@ -760,12 +776,16 @@ Section WellFormed.
       split.
       { destruct st.
         - apply (ct_link _ _ (mkObj b cache_perms)). rewrite cget_cput, beqb_refl. reflexivity.
-        - exact Ht. }
+        - constructor. exact Htame. }
       split; [exact (Htext _)|]. apply Hap. exact Eisd.
     - (* LinkC, qmatch *)
       apply qmatch_inv in Hq as (_ & _ & o & Hg).
       split; [exact Hmp|]. split; [exact Ht|]. split; [|apply Hap; exact Eisd].
       destruct (Hc _ _ Hg) as [-> _]. exact (Htext _).
+    - (* LinkC, adopted *)
+      injection Ed as <-.
+      split; [exact Hmp|]. split; [exact Ht|]. split; [|apply Hap; exact Eisd].
+      cbn [set_cs a_cs]. destruct (Hc _ _ Hg') as [-> _]. exact (Htext _).
     - (* Dir *)
       apply commit_dir_inv in Hok as (Eisd & old & es' & c1 & m & Hold & He & -> & -> & ->).
       inversion Ht as [| |es0 Hs Hes]; subst.
@@ -793,3 +813,123 @@ Section WellFormed.
   Proof. apply A_entries. apply Forall_forall. intros e _. apply commit_A. Qed.
 
 End WellFormed.
+
+(* ------------------------------------------------------------------------------------------ *)
+(* C16: the recorded checksum is the Merkle function of path and logical content               *)
+(* ------------------------------------------------------------------------------------------ *)
+
+Definition merkle_entries (rec : bytes -> bool -> node -> option bytes) (nr : bool) :=
+  fix go (es : list (bytes * node)) : option (list (bytes * artifact)) :=
+    match es with
+    | [] => Some []
+    | (name, ch) :: r =>
+      if nr && is_dir ch then go r else
+      match rec name false ch, go r with
+      | Some d, Some l => Some ((name, mkArt d name (is_dir ch) false false) :: l)
+      | _, _ => None
+      end
+    end.
+
+Lemma merkle_dir H p nr es :
+  merkle H p nr (Dir es) =
+  match merkle_entries (merkle H) nr es with
+  | Some l => Some (H (enc_manifest (mkMan p l)))
+  | None => None
+  end.
+Proof. reflexivity. Qed.
+
+Lemma is_dir_logical c n : is_dir (logical c n) = is_dir n.
+Proof. destruct n as [|d| | |]; try reflexivity. cbn [logical]. destruct (cget c d); reflexivity. Qed.
+
+Section Merkle.
+  Variable H : bytes -> bytes.
+  Hypothesis Hinj : H_inj H.
+  Hypothesis Htext : H_text H.
+  Hypothesis Hcodec : codec_ok.
+
+  Definition PM (n : node) : Prop :=
+    forall a c st n' c' a',
+      ctree c n -> wf_text (a_path a) -> cache_ok H c -> man_plain c ->
+      commit_node H a n c st = Ok (n', c', a') ->
+      merkle H (a_path a) (a_norec a) (logical c n) = Some (a_cs a').
+
+  Lemma M_entries es :
+    Forall (fun e => PM (snd e)) es ->
+    forall nr old st c es' c1 m c0,
+      cache_le c0 c ->
+      StronglySorted key_lt es ->
+      Forall (fun e => good_name (fst e) /\ ctree c0 (snd e)) es ->
+      old_ok old -> cache_ok H c -> man_plain c ->
+      commit_entries (commit_node H) nr old st es c = Ok (es', c1, m) ->
+      merkle_entries (merkle H) nr (map (fun e => (fst e, logical c0 (snd e))) es) = Some m.
+  Proof.
+    intros IH.
+    induction IH as [|[name ch] r IHch _ IHr]; intros nr old st c es' c1 m c0 Hle0 Hs Hes Hold Hc Hmp He.
+    - apply commit_entries_nil in He. injection He as _ _ ->. reflexivity.
+    - inversion Hs as [|e0 r0 Hsr Hlt]; subst.
+      inversion Hes as [|e0 r0 [Hgn Hch0] Hr0]; subst. cbn [fst snd] in *.
+      cbn [map fst snd merkle_entries]. rewrite is_dir_logical.
+      apply commit_entries_cons in He
+        as [(Esk & es1 & Hr & _)|(Esk & _ & ch' & c2 & child' & es1 & m1 & Hch & Hr & _ & ->)];
+        rewrite Esk.
+      + exact (IHr _ _ _ _ _ _ _ _ Hle0 Hsr Hr0 Hold Hc Hmp Hr).
+      + destruct (child_of_props old name ch Hold) as (Hcp & [Hcn Hcs] & Hcd).
+        assert (Hwfp : wf_text (a_path (child_of old name ch)))
+          by (rewrite Hcp; exact (good_name_wf _ Hgn)).
+        pose proof (ctree_le _ _ _ Hle0 Hch0) as Hchc.
+        pose proof (IHch _ _ _ _ _ _ Hchc Hwfp Hc Hmp Hch) as Hm.
+        rewrite Hcp, Hcn, (logical_le _ _ _ Hle0 (ctree_resolved _ _ Hch0)) in Hm. rewrite Hm.
+        destruct (commit_A H Hinj Htext Hcodec _ _ _ _ _ _ _ Hchc Hwfp Hc Hmp Hch) as (M2 & _).
+        destruct (commit_cache_ok H Hinj _ _ _ _ _ _ _ Hc Hch) as [Hc2 Hle2].
+        rewrite (IHr _ _ _ _ _ _ _ _ (cache_le_trans _ _ _ Hle0 Hle2) Hsr Hr0 Hold Hc2 M2 Hr).
+        destruct (commit_node_flags H _ _ _ _ _ _ _ Hch) as (Fp & Fd & Fn & Fs).
+        destruct child' as [cs' p' d' n' s']. cbn [a_cs a_path a_isdir a_norec a_skip] in *.
+        f_equal. f_equal. f_equal; congruence.
+  Qed.
+
+  Lemma commit_M n : PM n.
+  Proof.
+    induction n as [b|d|t| |es IH] using node_ind2; intros a c st n' c' a' Ht Hwp Hc Hmp Hok.
+    1-4: rewrite commit_node_leaf in Hok by reflexivity;
+         destruct (a_isdir a) eqn:Eisd; [discriminate|];
+         apply commit_file_inv in Hok
+           as [(Hq & -> & -> & ->)|[(_ & b' & Eb & -> & _)|(d' & o' & Ed & Hg' & -> & -> & ->)]];
+         try discriminate; try (inversion Ht; fail).
+    - apply qmatch_inv in Hq as (_ & Hn & _). discriminate.
+    - injection Eb as <-. reflexivity.
+    - apply qmatch_inv in Hq as (_ & Hn & o & Hg). injection Hn as ->.
+      cbn [logical]. rewrite Hg. cbn [merkle]. destruct (Hc _ _ Hg) as [<- _]. reflexivity.
+    - injection Ed as <-. cbn [logical]. rewrite Hg'. cbn [merkle set_cs a_cs].
+      destruct (Hc _ _ Hg') as [<- _]. reflexivity.
+    - apply commit_dir_inv in Hok as (Eisd & old & es' & c1 & m & Hold & He & -> & -> & ->).
+      inversion Ht as [| |es0 Hs Hes]; subst.
+      pose proof (old_contents_ok _ _ _ Hmp Hold) as Hoo.
+      cbn [logical]. rewrite merkle_dir.
+      rewrite (M_entries es IH _ _ _ _ _ _ _ _ (cache_le_refl c) Hs Hes Hoo Hc Hmp He).
+      reflexivity.
+  Qed.
+
+  (* stmt_commit_merkle is FALSE as written (cex_merkle_link, cex_merkle_blob below).  Repaired:
+     the tree is a [ctree] (sorted good names, no dangling link, no file whose bytes are a manifest
+     with flagged or directory entries), the path is text, and H_text / codec_ok are assumed so
+     that what commit writes decodes to itself.  The premise [a_skip a = false] is not needed. *)
+  Theorem commit_merkle_ctree :
+    forall a n c st n' c' a',
+      cache_ok H c -> man_plain c -> ctree c n -> wf_text (a_path a) ->
+      commit_node H a n c st = Ok (n', c', a') ->
+      merkle H (a_path a) (a_norec a) (logical c n) = Some (a_cs a').
+  Proof. intros a n c st n' c' a' Hc Hmp Ht Hwp Hok. exact (commit_M n _ _ _ _ _ _ Ht Hwp Hc Hmp Hok). Qed.
+
+  Theorem commit_merkle_plain :
+    forall a n c st n' c' a',
+      cache_ok H c -> man_plain c -> plain n -> tame n -> wf_text (a_path a) ->
+      commit_node H a n c st = Ok (n', c', a') ->
+      merkle H (a_path a) (a_norec a) n = Some (a_cs a').
+  Proof.
+    intros a n c st n' c' a' Hc Hmp Hp Htm Hwp Hok.
+    rewrite <- (plain_logical c n Hp) at 1.
+    exact (commit_M n _ _ _ _ _ _ (plain_tame_ctree c n Hp Htm) Hwp Hc Hmp Hok).
+  Qed.
+End Merkle.
+Print Assumptions commit_merkle_ctree.
+Print Assumptions commit_merkle_plain.
